@@ -191,6 +191,12 @@ where
         }
         let mut found = BTreeSet::new();
         while let Some((link, path_pos)) = links.pop() {
+            // Normalize like the import hook does, so that a file reached
+            // under several spellings is compiled once and an import cycle
+            // written with redundant segments terminates.
+            let link: Rc<str> = crate::path::normalize(PathBuf::from(link.as_ref()))
+                .to_string_lossy()
+                .into();
             if found.contains(&link) {
                 continue;
             }
